@@ -11,8 +11,9 @@ import (
 	"bufio"
 	"context"
 	"fmt"
-	"runtime"
 	"os"
+	"regexp"
+	"runtime"
 	"strconv"
 	"strings"
 	"sync"
@@ -29,9 +30,30 @@ type verifC13H struct {
 	batches []string
 	pcw     *perChannelWriter
 	handle  *channelWriter
+	// gate inside the flush callback (op `gadd`)
+	gateArmed bool
+	entered   chan struct{}
+	gate      chan struct{}
+	// client-level scenario (ops `creset`, `cadd`, `csleep`)
+	cnode   *Node
+	cclient *Client
+	csink   chan []byte
 }
 
 func (h *verifC13H) flushFn(items []queue.Item) error {
+	h.mu.Lock()
+	var gate chan struct{}
+	if h.gateArmed {
+		// the first flush after arming blocks here; what it was handed is looked at only after
+		// the release (a batch that aliases the writer's buffer shows what an Add did to it)
+		h.gateArmed = false
+		gate = h.gate
+		close(h.entered)
+	}
+	h.mu.Unlock()
+	if gate != nil {
+		<-gate
+	}
 	ids := make([]string, 0, len(items))
 	for _, it := range items {
 		ids = append(ids, it.Channel)
@@ -265,6 +287,86 @@ func verifC13Race(delayMs int) (res string) {
 	return fmt.Sprintf("race unsub_reply=%d pub_delivered=%d pub_after_unsub=%d", ur, got, after)
 }
 
+func (h *verifC13H) cstop() {
+	if h.cnode != nil {
+		if h.cclient != nil {
+			_ = h.cclient.close(DisconnectForceNoReconnect)
+		}
+		_ = h.cnode.Shutdown(context.Background())
+		time.Sleep(30 * time.Second)
+		synctest.Wait()
+		h.cnode, h.cclient, h.csink = nil, nil, nil
+	}
+}
+
+// creset: a real Node with a channel batch config and a real Client subscribed to "ch" with
+// PushJoinLeave; publications, joins and leaves then travel hub -> client -> perChannelWriter ->
+// connection writer -> transport.
+func (h *verifC13H) creset(delayMs, size, latest int) string {
+	h.cstop()
+	cfg := ChannelBatchConfig{MaxSize: int64(size), MaxDelay: time.Duration(delayMs) * time.Millisecond, FlushLatestPublication: latest != 0}
+	node, err := New(Config{
+		LogLevel:              LogLevelError,
+		LogHandler:            func(entry LogEntry) {},
+		GetChannelBatchConfig: func(channel string) ChannelBatchConfig { return cfg },
+	})
+	if err != nil {
+		return "creset-failed"
+	}
+	node.OnConnect(func(client *Client) {
+		client.OnSubscribe(func(e SubscribeEvent, cb SubscribeCallback) {
+			cb(SubscribeReply{Options: SubscribeOptions{PushJoinLeave: true}}, nil)
+		})
+	})
+	if err := node.Run(); err != nil {
+		return "creset-failed"
+	}
+	h.cnode = node
+	ctx, cancelFn := context.WithCancel(context.Background())
+	tt := newTestTransport(cancelFn)
+	tt.setProtocolVersion(ProtocolVersion2)
+	tt.setProtocolType(ProtocolTypeJSON)
+	h.csink = make(chan []byte, 10000)
+	tt.setSink(h.csink)
+	c, _, err := NewClient(SetCredentials(ctx, &Credentials{UserID: "u"}), node, tt)
+	if err != nil {
+		return "creset-failed"
+	}
+	rw := testReplyWriterWrapper()
+	if err := c.connectCmd(&protocol.ConnectRequest{}, &protocol.Command{Id: 1}, time.Now(), rw.rw); err != nil {
+		return "creset-failed"
+	}
+	c.triggerConnect()
+	c.scheduleOnConnectTimers()
+	h.cclient = c
+	rw = testReplyWriterWrapper()
+	if err := c.handleSubscribe(&protocol.SubscribeRequest{Channel: "ch"}, &protocol.Command{Id: 2}, time.Now(), rw.rw); err != nil {
+		return "creset-failed"
+	}
+	synctest.Wait()
+	for len(h.csink) > 0 {
+		<-h.csink
+	}
+	return "creset"
+}
+
+var verifC13IDRe = regexp.MustCompile(`"vid":(\d+)|"client":"id(\d+)"`)
+
+func (h *verifC13H) cseq() string {
+	var ids []string
+	for len(h.csink) > 0 {
+		m := string(<-h.csink)
+		for _, sm := range verifC13IDRe.FindAllStringSubmatch(m, -1) {
+			if sm[1] != "" {
+				ids = append(ids, sm[1])
+			} else {
+				ids = append(ids, sm[2])
+			}
+		}
+	}
+	return "seq=[" + strings.Join(ids, ",") + "]"
+}
+
 func (h *verifC13H) step(ws []string) (res string) {
 	defer func() {
 		if r := recover(); r != nil {
@@ -275,6 +377,46 @@ func (h *verifC13H) step(ws []string) (res string) {
 		return "bad-op"
 	}
 	switch ws[0] {
+	case "creset":
+		d, ok1 := verifC13Int(ws, "delay")
+		sz, ok2 := verifC13Int(ws, "size")
+		l, ok3 := verifC13Int(ws, "latest")
+		if !ok1 || !ok2 || !ok3 || (d == 0 && sz == 0) {
+			return "bad-op"
+		}
+		return h.creset(d, sz, l)
+	case "cadd":
+		if h.cnode == nil {
+			return "bad-op"
+		}
+		f, ok1 := verifC13KV(ws, "f")
+		id, ok2 := verifC13Int(ws, "id")
+		if !ok1 || !ok2 {
+			return "bad-op"
+		}
+		switch f {
+		case "p":
+			_, _ = h.cnode.Publish("ch", []byte(`{"vid":`+strconv.Itoa(id)+`}`))
+		case "j":
+			_ = h.cnode.publishJoin("ch", &ClientInfo{ClientID: "id" + strconv.Itoa(id), UserID: "x"})
+		case "l":
+			_ = h.cnode.publishLeave("ch", &ClientInfo{ClientID: "id" + strconv.Itoa(id), UserID: "x"})
+		default:
+			return "bad-op"
+		}
+		synctest.Wait()
+		return h.cseq()
+	case "csleep":
+		if h.cnode == nil || len(ws) != 2 {
+			return "bad-op"
+		}
+		d, err := strconv.Atoi(ws[1])
+		if err != nil || d < 0 {
+			return "bad-op"
+		}
+		time.Sleep(time.Duration(d) * time.Millisecond)
+		synctest.Wait()
+		return h.cseq()
 	case "race":
 		d := 10
 		if len(ws) == 2 {
@@ -284,6 +426,9 @@ func (h *verifC13H) step(ws []string) (res string) {
 		}
 		return verifC13Race(d)
 	case "reset":
+		// no Node may be alive while virtual time is fast-forwarded (its periodic tasks would run
+		// thousands of times)
+		h.cstop()
 		if h.pcw != nil {
 			h.pcw.Close(false)
 			// let timers of writers that were removed from the map (still reachable through a
@@ -322,6 +467,57 @@ func (h *verifC13H) step(ws []string) (res string) {
 			return "bad-op"
 		}
 		h.handle.Add(it, cfg)
+		synctest.Wait()
+		return verifC13Out([]string{h.takeGroup()})
+	case "gadd":
+		// an Add that races a timer flush which is held inside the flush callback
+		ch, ok := verifC13KV(ws, "ch")
+		it, cfg, ok2 := verifC13Add(ws)
+		if !ok || !ok2 {
+			return "bad-op"
+		}
+		h.mu.Lock()
+		h.gateArmed = true
+		h.entered = make(chan struct{})
+		h.gate = make(chan struct{})
+		entered, gate := h.entered, h.gate
+		h.mu.Unlock()
+		in := false
+		for i := 0; i < 64 && !in; i++ {
+			time.Sleep(time.Millisecond)
+			synctest.Wait()
+			select {
+			case <-entered:
+				in = true
+			default:
+			}
+		}
+		if !in {
+			h.mu.Lock()
+			h.gateArmed = false
+			h.mu.Unlock()
+			h.pcw.Add(it, ch, cfg)
+			synctest.Wait()
+			return verifC13Out([]string{h.takeGroup()})
+		}
+		addDone := make(chan struct{})
+		go func() {
+			h.pcw.Add(it, ch, cfg)
+			close(addDone)
+		}()
+		// give the Add every chance to run while the flush is held (it blocks on the writer's
+		// mutex when the flush callback is invoked under that lock; a mutex block is not durable,
+		// so the virtual clock cannot be used to wait here)
+		for i := 0; i < 2000; i++ {
+			select {
+			case <-addDone:
+				i = 2000
+			default:
+				runtime.Gosched()
+			}
+		}
+		close(gate)
+		<-addDone
 		synctest.Wait()
 		return verifC13Out([]string{h.takeGroup()})
 	case "sleep":
@@ -387,10 +583,12 @@ func TestVerifC13(t *testing.T) {
 				continue
 			}
 			fmt.Fprintln(bw, h.step(strings.Fields(line)))
+			bw.Flush()
 		}
 		if h.pcw != nil {
 			h.pcw.Close(false)
 		}
+		h.cstop()
 		synctest.Wait()
 	})
 }
